@@ -33,18 +33,24 @@ DRIVER = "drv_phs"
 # as a VIOLATION — neither is a known finding any more):
 #   R36  (09980379c, was finding F36):  updatePhsDefinitions restores listPhsPtrs_ from allPhsPtrs_; heuristic / measure over all pairs
 #   R130 (5852532a8, was finding F130): the private sampleUniform returns false when the one PHS left cannot improve on maxCost
+#   R450 (repair of finding F450, notes/C15-fix-F450.diff): no uninformed part when informedIdx_ == uninformedIdx_ (a compound space
+#         with a single R^n subspace): createFullState / getInformedMeasure test `uninformedSubSpace_`, not `isCompound()`
 def _tree_flags():
     try:
         src = open(os.path.join(core.REPO, "src/ompl/base/samplers/informed/src/PathLengthDirectInfSampler.cpp")).read()
     except OSError:
-        return False, False
+        return False, False, False
+    r450 = re.search(r"if \(uninformedIdx_ != informedIdx_\)", src) is not None and len(re.findall(r"if \(uninformedSubSpace_\)", src)) >= 2
     r36 = "listPhsPtrs_ = allPhsPtrs_;" in src and re.search(r"for \(const auto &phsPtr : allPhsPtrs_\)", src) is not None
     r130 = re.search(r"listPhsPtrs_\.size\(\) == 1u\s*&&\s*!\(listPhsPtrs_\.front\(\)->getMinTransverseDiameter\(\) < maxCost\.value\(\)\)", src) is not None
-    return r36, r130
+    return r36, r130, r450
 
 
-R36, R130 = _tree_flags()
-HDR = "phs seed=%d" + (" restore=1" if R36 else "") + (" degfix=1" if R130 else "")
+R36, R130, R450 = _tree_flags()
+HDR = "phs seed=%d" + (" restore=1" if R36 else "") + (" degfix=1" if R130 else "") + (" cfsfix=1" if R450 else "")
+# the space kinds of the sampler world: rv = RealVectorStateSpace; crv = CompoundStateSpace with ONE real-vector subspace; se2 / dubins / rs =
+# the library's SE(2) classes; se2x = an SE(2)-typed compound with the subspaces the other way round (SO2, R^2); se3
+SE2_LIKE = ("se2", "se2x", "dubins", "rs")
 LEAN_TARGETS = ["OmplModel.Props.C15", DRIVER]
 EPS = 2.220446049250313e-16
 TOL = 1e-12
@@ -102,9 +108,11 @@ def full_space_heuristic(P, all_):
     arc length acos|<q, q0>| with the 1-1e-9 clamp); starts and goals have yaw 0 / the identity quaternion"""
     n = P["n"]
     x = all_[:n]
-    if P["kind"] == "se2":
+    if P["kind"] in ("se2", "se2x"):
         a = abs(all_[2])
         rot = 0.5 * (a if a <= math.pi else 2 * math.pi - a)
+    elif P["kind"] == "crv":
+        rot = 0.0
     else:
         dq = abs(all_[6])
         rot = 0.0 if dq > 1.0 - 1e-9 else math.acos(dq)
@@ -590,17 +598,18 @@ def space_measures(kind, n, lo, hi):
     m = 1.0
     for _ in range(n):
         m *= hi - lo
-    if kind == "rv":
+    if kind in ("rv", "crv"):
+        # crv: the compound measure is weight 1.0 * the subspace measure; there is no uninformed part
         return m, None, m
     # CompoundStateSpace::getMeasure multiplies by the subspace WEIGHTS (SE2: 1.0 and 0.5; SE3: 1.0 and 1.0), whereas
     # getInformedMeasure multiplies the PHS measures by the unweighted uninformedSubSpace_->getMeasure()
-    um = 2.0 * math.pi if kind == "se2" else math.pi * math.pi
-    return m, um, m * ((0.5 if kind == "se2" else 1.0) * um)
+    um = 2.0 * math.pi if kind in SE2_LIKE else math.pi * math.pi
+    return m, um, m * ((0.5 if kind in SE2_LIKE else 1.0) * um)
 
 
 def gen_problem(rng, kind=None, n=None):
     kind = kind or "rv"
-    n = n or (rng.choice([2, 2, 3, 4, 6]) if kind == "rv" else (2 if kind == "se2" else 3))
+    n = n or (rng.choice([2, 2, 3, 4, 6]) if kind in ("rv", "crv") else (2 if kind in SE2_LIKE else 3))
     lo, hi = rng.choice([(-10.0, 10.0), (0.0, 1.0), (-1000.0, 1000.0), (-1.0, 3.0)])
     ns, ng = rng.range(1, 3), rng.range(1, 3)
     w = hi - lo
@@ -610,7 +619,7 @@ def gen_problem(rng, kind=None, n=None):
 
 
 def prob_lines(P):
-    sp = "space rv %d %s %s" % (P["n"], f2bits(P["lo"]), f2bits(P["hi"])) if P["kind"] == "rv" else \
+    sp = "space %s %d %s %s" % (P["kind"], P["n"], f2bits(P["lo"]), f2bits(P["hi"])) if P["kind"] in ("rv", "crv") else \
         "space %s %s %s" % (P["kind"], f2bits(P["lo"]), f2bits(P["hi"]))
     return [sp, "starts %d %s" % (len(P["starts"]), " ".join(vb(s) for s in P["starts"])),
             "goals %d %s" % (len(P["goals"]), " ".join(vb(g) for g in P["goals"]))]
@@ -995,6 +1004,22 @@ def bulk_configs(rng, tier):
     # heuristic, not on the full-space one that includes the rotation distance
     add(P3, "direct", lambda cm: max(cm) * 1.3, minfac=lambda cm: max(cm) * 1.3 * 0.85, n=N // 4, name="se2-three-arg")
     add(P5, "direct", lambda cm: cm[0] * 1.3, minfac=lambda cm: cm[0] * 1.3 * 0.85, n=N // 4, name="se3-three-arg")
+    # round 10: spaces whose component layout differs from the plain ones (constructor classification + createFullState / getInformedSubstate):
+    # a CompoundStateSpace with ONE real-vector subspace (finding F450 as coded), an SE(2)-typed compound with the subspaces swapped, Dubins, Reeds-Shepp
+    Pg1 = {"kind": "crv", "n": 2, "lo": -10.0, "hi": 10.0, "starts": [[-2.0, -1.0]], "goals": [[2.5, 1.5]]}
+    Pg2 = {"kind": "crv", "n": 3, "lo": -4.0, "hi": 4.0, "starts": [[-1.0, 0.0, 0.5], [0.0, -1.0, 0.0]], "goals": [[1.0, 1.0, -0.5]]}
+    add(Pg1, "direct", lambda cm: cm[0] * 1.25, n=N // 8, tests=("grid",), name="crv2-direct")
+    add(Pg2, "direct", lambda cm: max(cm) * 1.2, n=N // 8, name="crv3-direct-2x1")
+    add(Pg1, "direct", lambda cm: cm[0] * 30.0, n=N // 8, name="crv2-direct-bounds-branch")
+    add(Pg1, "rej", lambda cm: cm[0] * 1.5, n=N // 16, name="crv2-rejection")
+    add(Pg1, "ord-direct", lambda cm: cm[0] * 1.25, n=N // 40, name="crv2-ordered-direct")
+    Pg3 = {"kind": "se2x", "n": 2, "lo": -5.0, "hi": 5.0, "starts": [[-1.0, -1.0]], "goals": [[1.5, 0.5], [-1.0, 2.0]]}
+    add(Pg3, "direct", lambda cm: max(cm) * 1.2, n=N // 4, tests=("grid", "yaw"), name="se2x-1x2")
+    add(Pg3, "direct", lambda cm: max(cm) * 1.3, minfac=lambda cm: max(cm) * 1.3 * 0.85, n=N // 8, name="se2x-three-arg")
+    add(Pg3, "rej", lambda cm: max(cm) * 1.6, n=N // 16, name="se2x-rejection")
+    for knd in ("dubins", "rs"):
+        Pg4 = {"kind": knd, "n": 2, "lo": -5.0, "hi": 5.0, "starts": [[-1.0, -1.0], [0.5, -2.0]], "goals": [[1.5, 0.5]]}
+        add(Pg4, "direct", lambda cm: max(cm) * 1.15, n=N // 8, tests=("yaw",), name="%s-2x1" % knd)
     # cost sweep from just above the focal distance to far beyond the bounds, random problems
     facs = [1 + 1e-9, 1 + 1e-6, 1.001, 1.05, 1.5, 3.0, 30.0, 1e4]
     for i in range(18 if tier == "quick" else 60):
@@ -1046,12 +1071,22 @@ def bulk_script(cfg, seed):
                                                      "im %s" % f2bits(cfg["c"] if cfg["c"] < math.inf else 1e300), op]
 
 
+def norm_state(P, raw):
+    """copyToReals order -> informed (position) reals first: the check's own knowledge of each space kind"""
+    if P["kind"] == "se2x":
+        return [raw[1], raw[2], raw[0]]
+    return list(raw)
+
+
 def state_ok(P, all_):
+    """all_: informed-first order"""
     n, lo, hi = P["n"], P["lo"], P["hi"]
+    if P["kind"] in ("rv", "crv") and len(all_) != n:
+        return False
     if not all(lo - EPS <= v <= hi + EPS for v in all_[:n]):
         return False
-    if P["kind"] == "se2":
-        return -math.pi <= all_[2] <= math.pi
+    if P["kind"] in SE2_LIKE:
+        return len(all_) == 3 and -math.pi <= all_[2] <= math.pi
     if P["kind"] == "se3":
         return abs(math.sqrt(sum(v * v for v in all_[3:7])) - 1.0) <= 1e-9
     return True
@@ -1089,6 +1124,11 @@ def bulk_judge(cfg, out, rc, err):
             what = ("sampleUniform returned true for a bound %r that is not above any focal distance: the state lies on a focal segment and has heuristic cost %r >= maxCost"
                     % (c, hc))
             cls = "degenerate-bound-success"
+        elif c < math.inf and not hc < c and P["kind"] == "crv" and cfg["sampler"] == "direct":
+            # F450: the informed sample (in a PHS, in bounds) is overwritten by a uniform draw of the same subspace in createFullState
+            what = ("compound space with a single R^%d subspace: sampleUniform returned true with the in-bounds state %r of heuristic cost %r >= maxCost %r"
+                    % (n, all_[:n], hc, c))
+            cls = "single-subspace-compound-overwritten"
         elif c < math.inf and not hc < c:
             what = "successful sample has heuristic cost %r >= maxCost %r" % (hc, c)
             # coordinate rounding of a point of a very thin PHS: excess far below one ulp of the coordinates
@@ -1099,7 +1139,7 @@ def bulk_judge(cfg, out, rc, err):
         elif cfg["sampler"] == "direct" and not relclose(hc, fm, TOL, S):
             what = "heuristicSolnCost %r is not the best focal sum %r" % (hc, fm)
             cls = "heuristic-mismatch"
-        elif cfg["sampler"] != "direct" and P["kind"] in ("se2", "se3") and not relclose(hc, full_space_heuristic(P, all_), 1e-9, S):
+        elif cfg["sampler"] != "direct" and P["kind"] in ("se2", "se2x", "se3") and not relclose(hc, full_space_heuristic(P, all_), 1e-9, S):
             what = "InformedSampler::heuristicSolnCost %r is not the space-distance heuristic %r (position + weighted rotation)" % (hc, full_space_heuristic(P, all_))
             cls = "heuristic-mismatch"
         elif cfg["sampler"] != "direct" and fm > hc + TOL * S:
@@ -1109,7 +1149,7 @@ def bulk_judge(cfg, out, rc, err):
             what = "harness focal sum differs from the check's recomputation"
             cls = "heuristic-mismatch"
         if what:
-            if cls in ("direct-rounding-thin-phs", "ordered-ignores-wrapped-failure", "degenerate-bound-success"):
+            if cls in ("direct-rounding-thin-phs", "ordered-ignores-wrapped-failure", "degenerate-bound-success", "single-subspace-compound-overwritten"):
                 # the defects F34 / F35 (fixed in /repo): kept as separate classes so that a regression is named
                 res["known"].setdefault(cls, (what, idx))
             elif res["fail"] is None:
@@ -1128,8 +1168,15 @@ def bulk_judge(cfg, out, rc, err):
                 if c < math.inf:
                     want = sum(phs_meas(n, dist(s, g), c) for s, g in pairs if dist(s, g) < c) * (um if um else 1.0)
                     want = min(tot, want)
-                    if d["has"] != "1" or not relclose(m, want, max(meas_tol(n, dist(s, g), c) for s, g in pairs)):
-                        res["fail"] = res["fail"] or ("informed-measure", "getInformedMeasure %r has=%s, analytic %r" % (m, d["has"], want), 0)
+                    mt = max(meas_tol(n, dist(s, g), c) for s, g in pairs)
+                    if d["has"] != "1" or not relclose(m, want, mt):
+                        if P["kind"] == "crv" and d["has"] == "1" and relclose(m, min(tot, want * inf), mt):
+                            # F450, measure side: the PHS measures are multiplied by the measure of the (only) subspace once more
+                            res["known"].setdefault("single-subspace-compound-overwritten",
+                                                    ("compound space with a single R^%d subspace: getInformedMeasure %r = min(space, analytic * subspace measure %r), analytic %r"
+                                                     % (n, m, inf, want), 0))
+                        else:
+                            res["fail"] = res["fail"] or ("informed-measure", "getInformedMeasure %r has=%s, analytic %r" % (m, d["has"], want), 0)
             elif d["has"] != "0" or not relclose(m, tot):
                 res["fail"] = res["fail"] or ("informed-measure", "rejection sampler measure %r has=%s, space measure %r" % (m, d["has"], tot), 0)
     return res
@@ -1240,7 +1287,7 @@ def run_bulk(ck, hbin, rng):
 
     bad = 0
     stats = []
-    with concurrent.futures.ThreadPoolExecutor(max_workers=min(12, os.cpu_count() or 4)) as ex:
+    with concurrent.futures.ThreadPoolExecutor(max_workers=min(6, os.cpu_count() or 4)) as ex:
         for i, script, res in ex.map(one, range(len(cfgs))):
             cfg = cfgs[i]
             ck.traces_validated += 1
@@ -1460,7 +1507,11 @@ SUP_DIM_ORDERS = [[("rv", 6), ("se2", 2), ("rv", 3), ("rv", 2), ("se3", 3), ("rv
                   [("se2", 2), ("rv", 6), ("rv", 2), ("rv", 4), ("se3", 3), ("se2", 2)]]
 
 
-def run_sup(ck, hbin, cmpst, rng):
+GLUE_DIM_ORDERS = [[("crv", 3), ("se2x", 2), ("dubins", 2), ("crv", 2), ("rs", 2), ("se2", 2)],
+                   [("se2x", 2), ("crv", 4), ("rs", 2), ("se3", 3), ("crv", 2), ("dubins", 2)]]
+
+
+def run_sup(ck, hbin, cmpst, rng, orders=None, tag="sup"):
     """samplePhsRejectBounds in lock-step: the harness replays the sampler's private RNG with an identically seeded twin
     (`supp` prints the RAW draw stream: uniform01, uniformNormalVector of the PHS dimension, uniformReal, uniform01; `sup`/`sup3`
     make the real call); the model consumes the same draws: randomPhsPtr (measure-weighted choice among 1-9 PHSs), uniformInBall
@@ -1468,11 +1519,16 @@ def run_sup(ck, hbin, cmpst, rng):
     3-argument forms.  Several problems of DESCENDING and mixed dimension run in ONE harness process (fresh space / sampler / RNG
     objects each): process-wide state left behind by an earlier, higher-dimensional problem must not leak into a later one."""
     bad = 0
-    nscripts = 3 if ck.tier == "quick" else 16
+    nscripts = (3 if ck.tier == "quick" else 16) if orders is None else (1 if ck.tier == "quick" else 6)
     for si in range(nscripts):
         rs = rng.fork("supscript%d" % si)
-        dims = SUP_DIM_ORDERS[si % len(SUP_DIM_ORDERS)] if si < 4 else \
-            [rs.choice([("rv", 2), ("rv", 3), ("rv", 4), ("rv", 5), ("rv", 6), ("se2", 2), ("se3", 3)]) for _ in range(6)]
+        if orders is not None:
+            # the glue round: the spaces whose informed / uninformed component indices differ from the plain (R^n | SE2 | SE3) ones
+            dims = orders[si % len(orders)] if si < len(orders) else \
+                [rs.choice([("crv", 2), ("crv", 3), ("crv", 5), ("se2x", 2), ("dubins", 2), ("rs", 2), ("se2", 2), ("se3", 3), ("rv", 3)]) for _ in range(6)]
+        else:
+            dims = SUP_DIM_ORDERS[si % len(SUP_DIM_ORDERS)] if si < 4 else \
+                [rs.choice([("rv", 2), ("rv", 3), ("rv", 4), ("rv", 5), ("rv", 6), ("se2", 2), ("se3", 3)]) for _ in range(6)]
         hdr = HDR % (1 + rs.below(10 ** 6))
         segs = []
         for pi, (kind_, n) in enumerate(dims):
@@ -1540,7 +1596,7 @@ def run_sup(ck, hbin, cmpst, rng):
         impl, rc, err, model = ck.run_pair(hbin, DRIVER, script)
         impl = impl or []
         ck.traces_validated += 1
-        ck.count("scripts:sup")
+        ck.count("scripts:" + tag)
         ck.count("sup:order=%s" % ",".join("%s%d" % kn for kn in dims))
         if rc != 0 or len(impl) != len(script) - 1:
             ck.report({"engine": "phs", "class": "harness-failure", "what": "sup run stopped early"}, script=[l[:400] for l in script],
@@ -1579,8 +1635,11 @@ def run_sup(ck, hbin, cmpst, rng):
                     f = "the rotation sub-sampler made a number of draws that matches no count of kept iterations (kept=%s, iterations=%d)" % (d["kept"], used)
                 elif R130 and m["c"] < min(sg["cmins"]) * (1 - 1e-12) and (d["found"] != "0" or (used != 0 and m["minc"] is None)):
                     f = "a bound no PHS can improve on must be answered false without sampling (got %s)" % o
+                elif d["found"] == "1" and fvec(d.get("~xi", "-")) != norm_state(P, fvec(d["~x"]))[:P["n"]]:
+                    # the sampler's own getInformedSubstate of the returned state vs the check's knowledge of where the position lives
+                    f = "getInformedSubstate of the returned state %r is not its position part %r" % (fvec(d.get("~xi", "-")), norm_state(P, fvec(d["~x"]))[:P["n"]])
                 elif d["found"] == "1" and not m["c"] > min(sg["cmins"]):
-                    xall = fvec(d["~x"])
+                    xall = norm_state(P, fvec(d["~x"]))
                     h = min(focal(xall[:P["n"]], *p_) for p_ in pairs)
                     if not h < m["c"]:
                         f = ("sampleUniform returned true for a bound %r that is not above any focal distance (smallest %r): the state has heuristic cost %r >= maxCost"
@@ -1589,13 +1648,19 @@ def run_sup(ck, hbin, cmpst, rng):
                         # re-test `pathLength < cmin` passes by rounding
                         fcls = "degenerate-bound-success" if on_focal_segment(xall[:P["n"]], pairs) else "phs-branch-replayed"
                 elif d["found"] == "1":
-                    xall = fvec(d["~x"])
+                    xall = norm_state(P, fvec(d["~x"]))
                     x = xall[:P["n"]]
                     h = min(focal(x, *p_) for p_ in pairs)
                     if d["inb"] != "1" or not state_ok(P, xall):
                         f = "successful sample outside the bounds: %r" % (x,)
                     elif not h < m["c"]:
                         f = "successful sample has heuristic cost %r >= maxCost %r" % (h, m["c"])
+                        if P["kind"] == "crv":
+                            # F450: on a compound space with ONE real-vector subspace createFullState overwrites the informed sample (which
+                            # passed every test) with a uniform draw of the same subspace
+                            fcls = "single-subspace-compound-overwritten"
+                            f = ("compound space with a single R^%d subspace: sampleUniform returned true with a state of heuristic cost %r >= maxCost %r "
+                                 "(the informed sample was overwritten by the 'uninformed' draw of the same subspace)" % (P["n"], h, m["c"]))
                     elif m["minc"] is not None and h < m["minc"] - TOL * S:
                         f = "successful sample has heuristic cost %r < minCost %r" % (h, m["minc"])
             keep = script[:i + 2]   # the whole op history of the process matters (earlier problems' sampling calls included)
@@ -1797,6 +1862,123 @@ def run_ordered(ck, hbin, cmpst, rng):
 
 
 
+# ---------------------------------------------------------------------------------- constructor classification (round 10)
+SE_TYPES = ("se2", "se3", "dubins", "rs")
+
+
+def ctor_spec(obj, ns, gs, ng, cmp_, cast, ty, subs):
+    """the check's own reading of the two constructors (InformedSampler, then PathLengthDirectInfSampler): expected output line
+    minus the `hasun` field, which is judged separately"""
+    if not obj:
+        return "throw=1"
+    if ns == 0:
+        return "throw=2"
+    if not gs:
+        return "throw=3"
+    if ng < 1:
+        return "throw=4"
+    if not cmp_:
+        return "ok compound=0 inf=0 un=0" if ty in ("rv", "unknown") else "throw=5"
+    if not cast:
+        return "throw=6"
+    if ty in SE_TYPES:
+        if len(subs) != 2:
+            return "throw=7"
+        inf = un = 0
+        for i, k in enumerate(subs):
+            if k == "rv":
+                inf = i
+            elif k in ("so2", "so3"):
+                un = i
+            else:
+                return "throw=8"
+        return "ok compound=1 inf=%d un=%d" % (inf, un)
+    return "ok compound=1 inf=0 un=0" if subs == ["rv"] else "throw=9"
+
+
+def ctor_descs(rng, quick):
+    subs_all = []
+    kinds = ["rv", "so2", "so3", "other"]
+    for a in kinds:
+        subs_all.append([a])
+        for b in kinds:
+            subs_all.append([a, b])
+            for c_ in kinds:
+                subs_all.append([a, b, c_])
+    spaces = [(0, 0, "rv", []), (0, 0, "unknown", []), (0, 0, "other", [])]
+    for ty in ("se2", "se3", "dubins", "rs", "unknown", "rv", "other"):
+        for sb in subs_all:
+            if ty in SE_TYPES and len(sb) == 2 and all(k in ("so2", "so3") for k in sb):
+                continue   # accepted as coded with an SO(n) "informed" subspace: a 1-dimensional PHS over an angle; not driven
+            spaces.append((1, 1, ty, sb))
+    for sb in ([["rv"], ["rv", "so2"], ["so3", "rv"], ["rv", "rv", "so2"], ["other"]]):
+        spaces.append((1, 0, "unknown", sb))
+    probs = [(1, 1, 1, 1), (1, 2, 1, 3), (0, 1, 1, 1), (1, 0, 1, 1), (0, 0, 0, 0), (1, 1, 0, 1), (1, 1, 1, 0), (1, 3, 0, 0), (0, 0, 1, 1), (1, 0, 0, 0)]
+    special = [(0, 0, "rv", []), (0, 0, "other", []), (1, 1, "se2", ["rv", "so2"]), (1, 1, "se2", ["so2", "rv"]), (1, 1, "se3", ["rv", "so3"]),
+               (1, 1, "unknown", ["rv"]), (1, 1, "unknown", ["rv", "so2"]), (1, 0, "unknown", ["rv", "so2"]), (1, 1, "se2", ["rv", "other"]),
+               (1, 1, "dubins", ["rv", "so2", "so2"]), (1, 1, "se2", ["rv", "rv"])]
+    out = []
+    for sp in special:
+        for pr in probs:
+            out.append(pr + sp)
+    short = [sp for sp in spaces if len(sp[3]) <= 2]
+    pool = spaces if not quick else short + [spaces[rng.below(len(spaces))] for _ in range(40)]
+    for sp in pool:
+        out.append(rng.choice([(1, 1, 1, 1), (1, 1, 1, 2), (1, 2, 1, 2), (1, 3, 1, 1)]) + sp)
+    return out
+
+
+def run_glue(ck, hbin, cmpst, rng):
+    """the constructor's checks and state-space classification (which exception, else informedIdx_ / uninformedIdx_ / whether an
+    uninformed part exists) on the REAL class, for every (space type x subspace list x wrapper x problem-definition) combination the code
+    distinguishes, in lock-step with the model's `ctorCheck` + the check's own reading; then the PHS-branch lock-step on the spaces whose
+    component layout differs from the plain ones (run_sup with GLUE_DIM_ORDERS)."""
+    bad = 0
+    descs = ctor_descs(rng.fork("ctor"), ck.tier == "quick")
+    script = [HDR % 7] + ["ctor %d %d %d %d %d %d %s%s" % (d[:7] + ((" " + " ".join(d[7])) if d[7] else "",)) for d in descs]
+    impl, rc, err, model = ck.run_pair(hbin, DRIVER, script)
+    impl = impl or []
+    ck.traces_validated += 1
+    ck.count("scripts:ctor")
+    if rc != 0 or len(impl) != len(script) - 1:
+        ck.report({"engine": "phs", "class": "harness-failure", "what": "ctor run stopped early"}, script=script[:len(impl) + 2],
+                  observed=impl[-2:] + [str(rc), (err or "")[-800:]])
+        return 1
+    for i, d in enumerate(descs):
+        o = impl[i]
+        ln = script[1 + i]
+        ck.case(("ctor", ln), True)
+        ck.count("op:ctor")
+        want = "ctor " + ctor_spec(*d)
+        _, f = fields(o)
+        ck.count("ctor:" + (o.split()[1] if len(o.split()) > 1 else "?").split("=")[0] + ("" if "throw" not in f else "=" + f["throw"]))
+        what = cls = None
+        if not o.startswith(want):
+            what, cls = "constructor answered %r, the documented checks give %r" % (o, want), "ctor-classification"
+        elif o.startswith("ctor ok") and f.get("hasun") == "1" and (f["compound"] != "1" or f["inf"] == f["un"]):
+            # F450 at the layout level: the "uninformed" subspace IS the informed one
+            what = ("the constructor accepts %s and takes subspace %s both as the informed and as the uninformed part: createFullState overwrites "
+                    "the informed sample, getInformedMeasure counts the subspace twice" % (" ".join(ln.split()[5:]), f["inf"]))
+            cls = "single-subspace-compound-overwritten"
+        elif o.startswith("ctor ok") and f.get("hasun") != ("1" if (f["compound"] == "1" and f["inf"] != f["un"]) else "0"):
+            what, cls = "uninformed part present=%s for %r" % (f.get("hasun"), o), "ctor-classification"
+        if what:
+            if ck.report({"engine": "phs", "class": cls, "sampler": "direct", "what": what}, script=[script[0], ln], observed=[o], expected=[want]):
+                ck.log("constructor oracle failure on %s: %s" % (ln, what[:160]))
+                bad += 1
+        dd = None if i < len(model) and model[i] == o else "model answers %r" % (model[i] if i < len(model) else "<missing>")
+        if dd is not None:
+            ck.disagreements += 1
+            ck.report({"engine": "phs", "class": "correspondence", "what": "ctor: implementation %r, %s" % (o, dd)}, script=[script[0], ln],
+                      expected=[model[i] if i < len(model) else "<missing>"], observed=[o], found_input=(what is not None),
+                      obligation="correspondence phs (constructor classification)")
+            bad += 1
+        if bad >= 3:
+            return bad
+    bad += run_sup(ck, hbin, cmpst, rng.fork("gluesup"), orders=GLUE_DIM_ORDERS, tag="sup-glue")
+    return bad
+
+
 # ---------------------------------------------------------------------------------- the check
 def corpus():
     d = os.path.join(core.VERIF, "corpus", "C15")
@@ -1837,6 +2019,35 @@ def sample_lines_fail(script, out):
             return li, idx, "successful sample has heuristic cost %r >= the current maxCost %r (bulk op #%d of the script)" % (hc, c, seg + 1)
         if minc is not None and hc < minc:
             return li, idx, "successful sample has heuristic cost %r < minCost %r" % (hc, minc)
+    return None
+
+
+def glue_lines_fail(script, out):
+    """oracle on `ctor` and `sup`/`sup3` lines of a script (used by replay): a constructor that takes ONE subspace both as the informed and
+    as the uninformed part; a successful PHS-branch sample whose informed part (the sampler's own getInformedSubstate of the returned
+    state) has a focal-sum minimum that is not below a bound above the smallest focal distance.  Returns (line number, what) or None."""
+    n = None
+    starts = goals = None
+    for i, ln in enumerate(script[1:]):
+        t = ln.split()
+        o = out[i] if i < len(out) else ""
+        _, d = fields(o)
+        if t[0] == "space":
+            n = int(t[2]) if t[1] in ("rv", "crv") else (3 if t[1] == "se3" else 2)
+        elif t[0] in ("starts", "goals") and n:
+            vs = [[bits2f(x) for x in t[2 + k * n: 2 + (k + 1) * n]] for k in range(int(t[1]))]
+            if t[0] == "starts":
+                starts = vs
+            else:
+                goals = vs
+        elif t[0] == "ctor" and o.startswith("ctor ok") and d.get("hasun") == "1" and d.get("compound") == "1" and d.get("inf") == d.get("un"):
+            return i + 1, "the constructor takes subspace %s both as the informed and as the uninformed part (createFullState overwrites the informed sample)" % d["inf"]
+        elif t[0] in ("sup", "sup3") and d.get("found") == "1" and starts and goals and d.get("~xi", "-") != "-":
+            c = bits2f(t[2] if t[0] == "sup" else t[3])
+            x = fvec(d["~xi"])
+            h = min(focal(x, s_, g_) for s_ in starts for g_ in goals)
+            if c > min(dist(s_, g_) for s_ in starts for g_ in goals) and not h < c:
+                return i + 1, "sampleUniform returned true with a state whose informed part %r has heuristic cost %r >= maxCost %r" % (x, h, c)
     return None
 
 
@@ -1940,6 +2151,8 @@ def run(ck):
     if bad < 3:
         bad += run_sup(ck, hbin, cmpst, ck.rng.fork("sup"))
     if bad < 3:
+        bad += run_glue(ck, hbin, cmpst, ck.rng.fork("glue"))
+    if bad < 3:
         bad += run_warm(ck, hbin, ck.rng.fork("warm"))
     if bad < 3:
         bad += run_ordered(ck, hbin, cmpst, ck.rng.fork("ordered"))
@@ -1950,7 +2163,8 @@ def run(ck):
     if bad < 3:
         bad += run_bulk(ck, hbin, ck.rng.fork("bulk"))
     tot = cmpst.exact + cmpst.approx
-    ck.extra_cov["model_variant_selected_from_tree"] = {"restore_from_allPhsPtrs (fix 09980379c)": R36, "early_return_when_no_phs_can_improve (fix 5852532a8)": R130}
+    ck.extra_cov["model_variant_selected_from_tree"] = {"restore_from_allPhsPtrs (fix 09980379c)": R36, "early_return_when_no_phs_can_improve (fix 5852532a8)": R130,
+                                                      "no_uninformed_part_when_indices_coincide (repair of F450)": R450}
     ck.extra_cov["float_fields_compared"] = tot
     ck.extra_cov["float_fields_bit_exact"] = cmpst.exact
     ck.extra_cov["bit_exact_rate"] = round(cmpst.exact / float(tot), 4) if tot else None
@@ -1992,6 +2206,10 @@ def replay(ck, data):
             print("every successful sample is in bounds with heuristic cost below the bound: no failure on the current tree")
             return 0 if rc == 0 else 1
     print("recorded failure: %s" % rec.get("what"))
+    gf = glue_lines_fail(script, impl)
+    if gf is not None:
+        print("PROPERTY FAILS at line %d: %s" % gf)
+        return 1
     if not harness_only and model:
         cm = Cmp()
         for i, ln in enumerate(script[1:]):
@@ -2029,12 +2247,17 @@ MANIFEST = {
             "draws, the PHS-sampling branch (multi-PHS selection, 1/k rejection, re-test) with the sampler's private RNG draws replayed through an identically "
             "seeded twin, the ordered sampler's queue, the wrapper; RNG::uniformProlateHyperspheroid[Surface] with replayed draws; SE(2)/SE(3) in the raw-draw lock-step (rotation "
             "sub-sampler twinned too); the circle branch (start = goal); bounds at/below the focal distance; a start added after construction; plus an oracle on "
-            "~10^6 sampled outputs per quick run.",
+            "~10^6 sampled outputs per quick run. Round 10: the two constructors' checks and the state-space classification (informedIdx_ / uninformedIdx_, nine exceptions), "
+            "createFullState / getInformedSubstate and the PHS list order are modelled and lock-stepped on every (space type x subspace list x wrapper x problem) combination and on "
+            "single-subspace compound, swapped-order SE(2), Dubins and Reeds-Shepp spaces; uniformity of the construction is a measure-theoretic theorem "
+            "(vol(T^-1 A & ball) vol(PHS) = vol(A & PHS) vol(ball) for every set A); the diameter invariant of updatePhsDefinitions is derived, not assumed.",
     "note": "level: proof for geometry, measure and decision logic; sampled outputs for RNG uniformity (chi-square tests with loose thresholds), coverage and the "
             "compound-space (SE2/SE3) sampling paths. Trusted: Lean kernel, the three standard axioms, the hand-written model outside what the correspondence "
             "explored, Eigen's SVD for n >= 3 (orthonormality, first column and det = +1 checked per instance at 1e-9; n = 2 recomputed by the model), IEEE rounding "
             "(modelled, not verified), the harness. The model variant (PHS list restored from allPhsPtrs_; early false when no PHS can improve) is selected from the source of the tree under test; "
-            "F36 and F130 are fixed in /repo, a revert of either is a VIOLATION.",
+            "F36 and F130 are fixed in /repo, a revert of either is a VIOLATION. Open finding F450 (compound space with a single real-vector subspace: createFullState overwrites the "
+            "informed sample, getInformedMeasure counts the subspace twice): reported as KNOWN-FINDING; witness theorem single_subspace_compound_overwritten_fails; the repaired glue is "
+            "proved sound (created_state_roundtrip_repaired) and selected automatically once notes/C15-fix-F450.diff is applied.",
     "technique": "Lean 4 proof (inner-product-space geometry, determinant/Haar measure of a linear image, Gamma recurrence, finite mixing argument, induction "
                  "over the sampler loops) + differential correspondence incl. RNG-twin replay + sampled-output oracle",
 }
